@@ -50,31 +50,33 @@ type Config struct {
 	NShards     int
 	AllowPanic  bool // a panic escaping a thread is an outcome, not a violation
 	AllowRace   bool
-	KeepGoing   bool // collect up to MaxFailures failures instead of stopping at the first
+	RaceFatal   func(msg string) bool // nil: every data race ends the execution as a failure
+	Promote     []string              // names of locations whose plain accesses are visible operations (found racy by an earlier run)
+	KeepGoing   bool                  // collect up to MaxFailures failures instead of stopping at the first
 	MaxFailures int
 }
 
 type Failure struct {
-	Msg     string   `json:"msg"`
-	Choices []int    `json:"choices"`
-	Steps   []string `json:"steps"`
-	Deviations int   `json:"deviations"`
+	Msg        string   `json:"msg"`
+	Choices    []int    `json:"choices"`
+	Steps      []string `json:"steps"`
+	Deviations int      `json:"deviations"`
 }
 
 type Result struct {
-	Name           string         `json:"name"`
-	Bound          int            `json:"bound"`
-	Execs          int            `json:"executions"`
-	Pruned         int            `json:"pruned_by_state_cache"`
-	Transitions    int            `json:"transitions"`
-	States         int            `json:"distinct_states"`
-	MaxDepth       int            `json:"max_depth"`
-	MaxThreads     int            `json:"max_threads"`
-	Complete       bool           `json:"complete"`
-	Outcomes       map[string]int `json:"outcomes"`
-	Failures       []Failure      `json:"failures,omitempty"`
-	SampleTrace    []string       `json:"sample_trace,omitempty"`
-	WallS          float64        `json:"wall_s"`
+	Name        string         `json:"name"`
+	Bound       int            `json:"bound"`
+	Execs       int            `json:"executions"`
+	Pruned      int            `json:"pruned_by_state_cache"`
+	Transitions int            `json:"transitions"`
+	States      int            `json:"distinct_states"`
+	MaxDepth    int            `json:"max_depth"`
+	MaxThreads  int            `json:"max_threads"`
+	Complete    bool           `json:"complete"`
+	Outcomes    map[string]int `json:"outcomes"`
+	Failures    []Failure      `json:"failures,omitempty"`
+	SampleTrace []string       `json:"sample_trace,omitempty"`
+	WallS       float64        `json:"wall_s"`
 }
 
 // sleeper is a transition that need not be explored from the current state because an
@@ -123,6 +125,12 @@ func runOne(cfg *Config, prefix []int, visited map[uint64]cacheEntry, body func(
 	var steps []stepInfo
 	epochCounter++
 	s := &Sched{yield: make(chan *Thread), epoch: epochCounter, timersLive: cfg.TimersLive}
+	if len(cfg.Promote) > 0 {
+		s.promote = make(map[string]bool, len(cfg.Promote))
+		for _, n := range cfg.Promote {
+			s.promote[n] = true
+		}
+	}
 	S = s
 	ctx := &Ctx{s: s}
 	GoNamed("main", func() { body(ctx) })
@@ -140,8 +148,23 @@ func runOne(cfg *Config, prefix []int, visited map[uint64]cacheEntry, body func(
 			break
 		}
 		if len(s.races) > 0 && !cfg.AllowRace {
-			s.fail = s.races[0]
-			break
+			// a race that violates the property by itself comes first; any other one stops the
+			// execution only while its location is not promoted yet (the coordinator promotes it
+			// and explores again, then the interleavings of the racing statements are covered)
+			for i, m := range s.races {
+				if cfg.RaceFatal == nil || cfg.RaceFatal(m) {
+					s.fail = s.races[i]
+					break
+				}
+			}
+			for i := range s.races {
+				if s.fail == "" && !s.promote[s.raceLocs[i]] {
+					s.fail = s.races[i]
+				}
+			}
+			if s.fail != "" {
+				break
+			}
 		}
 		for _, t := range s.threads {
 			if t.panicked && !cfg.AllowPanic && s.fail == "" {
